@@ -346,10 +346,12 @@ def case(world):
         if world["params"].get("display_interval", 0.1) < 1e17:
             bump("stops.deadline.with_display_rows")
         ctx["t"] = p
+        # documented precedence: the iteration-limit test comes first, so a stop that coincides with the end of
+        # the budget is reported as IterationLimit
         if is_inner:
             exp = {"TimeLimit"} if p + 1 < cap else {"IterationLimit"}
         else:
-            exp = {"TimeLimit"}
+            exp = {"TimeLimit"} if p < cap else {"IterationLimit"}
         vs = _compare_prefix(R, S, p, racc, rt, sub, ctx, is_inner, exp)
         if is_inner and not vs and len(S.trials) != p + 1:
             vs.append(V(ID, "aborted-trial", "deadline inside the Newton loop of trial %d but the trial is not logged as aborted" % p, sub, ctx))
